@@ -41,6 +41,103 @@ def run(ctx):
     ctx.guard(r2_flush)
     ctx.guard(r3_positions)
     ctx.guard(r4_point)
+    ctx.guard(r5_stale_extent)
+
+
+def _walk(stmts):
+    from ..cfg import walk_own
+    return walk_own(stmts)
+
+
+# -- R5: positions are compared with the destination's *current* extent -------
+
+EXTENT = ("len(%s)", "len(%s.coords)", "len(%s.payloads)", "%s.maxCoord()",
+          "%s.minCoord()", "len(%s.getCoords())")
+
+
+def r5_stale_extent(ctx):
+    """The populate iterator inserts into the destination while it walks the
+    source, and decides with the destination's extent (length, maximum
+    coordinate) which positions are read, searched and traced.  A local that
+    holds such an extent, is bound outside the loop and read inside it goes
+    stale with the first insertion (a hoisted `a_len = len(self.a_fiber)`):
+    the guard of the `populate_read` rows then compares with the length on
+    entry and rows go missing once as many elements were inserted as the
+    destination held.  Reads that only happen for the first source element
+    (`<loop index> == 0`) see the value still fresh."""
+    it = ctx.func("core/iterators.py:__lshift__.lshift_iterator.__iter__")
+    loops = [n for n in it.own_nodes() if isinstance(n, ast.For)
+             and any(isinstance(x, ast.Yield) for x in _walk(n.body))]
+    ctx.require(len(loops) == 1, "C16.R5: populate loop not found")
+    lp = loops[0]
+    # receivers the loop body inserts into / deletes from
+    grown = set()
+    for c in _walk(lp.body):
+        if isinstance(c, ast.Call) and isinstance(c.func, ast.Attribute):
+            if c.func.attr in ("_create_payload", "insert", "append", "insertOrLookup"):
+                base = text(c.func.value)
+                for suf in (".coords", ".payloads"):
+                    if base.endswith(suf):
+                        base = base[:-len(suf)]
+                grown.add(base.replace(" ", ""))
+        if isinstance(c, ast.Delete):
+            for t in c.targets:
+                if isinstance(t, ast.Subscript):
+                    base = text(t.value)
+                    for suf in (".coords", ".payloads"):
+                        if base.endswith(suf):
+                            base = base[:-len(suf)]
+                    grown.add(base.replace(" ", ""))
+    ctx.require(grown, "C16.R5: the populate loop no longer inserts into its destination")
+    idx = None
+    if isinstance(lp.target, ast.Tuple) and isinstance(lp.target.elts[0], ast.Name):
+        idx = lp.target.elts[0].id
+    n = 0
+    for u in _walk(lp.body):
+        if not (isinstance(u, ast.Name) and isinstance(u.ctx, ast.Load)):
+            continue
+        facts, is_param = ctx.ty.facts_at(it, u.id, u)
+        facts = [fa for fa in facts if fa.kind == "expr" and not fa.path]
+        if is_param or not facts:
+            continue
+        ext = []
+        for fa in facts:
+            v = text(fa.value).replace(" ", "")
+            if any(v == pat_ % g for g in grown for pat_ in EXTENT):
+                ext.append(fa)
+        if not ext:
+            continue
+        outside = [fa for fa in ext if not is_within(fa.stmt, lp)]
+        if not outside:
+            n += 1
+            continue            # re-read in the loop: current
+        first_only = idx is not None and pat.A("==", idx, "0") in \
+            pat.catoms_of_guards(ctx, it, enclosing_stmt(u), stop=lp)
+        # `i == 0 and <uses the extent>`: short-circuit is a guard too
+        child, par = u, getattr(u, "_parent", None)
+        while idx is not None and par is not None and not isinstance(par, ast.stmt):
+            if isinstance(par, ast.BoolOp) and isinstance(par.op, ast.And):
+                k = next((i for i, v in enumerate(par.values) if v is child), None)
+                if k and any(pat.catom(ctx, it, v, True, False) == pat.A("==", idx, "0")
+                             for v in par.values[:k]):
+                    first_only = True
+            child, par = par, getattr(par, "_parent", None)
+        n += 1
+        if first_only:
+            ctx.ok("C16.R5", it, u, "extent read only for the first source element")
+        else:
+            ctx.bad("C16.R5", it, u,
+                    "`%s` holds `%s`, bound before the populate loop, and is read "
+                    "inside it although the loop inserts into %s: from the first "
+                    "insertion on the value is stale, so the positions that are "
+                    "searched and traced are decided against the destination's "
+                    "extent on entry (destination elements walked past get no "
+                    "populate_read row once enough elements were inserted)"
+                    % (u.id, text(outside[0].value), sorted(grown)[0]),
+                    text_="stale extent %s" % text(outside[0].value).replace(" ", ""))
+    if not any(f_.rule == "C16.R5" for f_ in ctx.findings):
+        ctx.ok("C16.R5", it, lp, "no extent of the destination is carried into the "
+               "loop (%d extent reads are current)" % n, text_="populate extents current")
 
 
 # ---------------------------------------------------------------------------
